@@ -23,7 +23,8 @@ ASSUMPTIONS = [
 ]
 REQUIRED = ['complete_requested', 'nested_complete', 'descendant_cancelled', 'descendant_stopped', 'descendant_raised',
             'descendant_from_generator_step', 'several_roots_in_flight', 'complete_channels_override', 'closure_depth_3plus',
-            'handler_suspended_in_call_or_wait', 'call_or_wait_timed_out_in_closure', 'suspended_again_right_after_timeout']
+            'handler_suspended_in_call_or_wait', 'call_or_wait_timed_out_in_closure', 'suspended_again_right_after_timeout',
+            'driven_by_tick_from_the_calling_thread', 'manager_had_an_earlier_run', 'earlier_run_in_another_thread', 'earlier_run_ended_with_exit_code']
 REQUIRED_OBLIGATIONS = ['COMPLETE_ONCE', 'COMPLETE_AFTER_CLOSURE', 'COMPLETE_EVENTUALLY']
 WORKER_TIMEOUT = {'quick': 300, 'thorough': 1500}
 ENGINE = 'stepping-driver'
@@ -55,12 +56,62 @@ def depth_of(w, uid):
     return d
 
 
+def earlier_run(w, pre):
+    """The manager has a life before the program under test: it was run() once - in another thread or in this one - and that run was ended
+    from its `started` handler, by stop() or by SystemExit(code)."""
+    import threading
+
+    from circuits import BaseComponent, handler
+    code = pre.get('code')
+
+    class Ender(BaseComponent):
+        @handler('started')
+        def _v_started(self, *args):
+            if code is not None:
+                raise SystemExit(code)
+            self.root.stop()      # (stop() of a registered component has no effect: the root is what runs)
+    ender = Ender().register(w.app)
+    while len(w.app):
+        w.app.flush()
+    res = {}
+
+    def target():
+        try:
+            w.app.run()
+            res['code'] = None
+        except SystemExit as e:
+            res['code'] = e.code
+    if pre.get('thread'):
+        t = threading.Thread(target=target, daemon=True)
+        t.start()
+        t.join(30)
+        if t.is_alive():
+            return 'the earlier run() in a helper thread did not end'
+    else:
+        target()
+    ender.unregister()
+    for _ in range(20):
+        if not len(w.app):
+            break
+        w.app.flush()
+    return None
+
+
 def run_case(case):
     from vlib.prog import World
     w = World({'handlers': case['handlers']})
+    if case.get('earlier_run'):
+        why = earlier_run(w, case['earlier_run'])
+        if why:
+            return None, {'inconclusive': why}, w
     for spec in case['fires']:
         w.fire(spec)
-    settled = w.run(max_iters=1500)
+    if case.get('drive') == 'tick':
+        # the manager is not run(): the calling thread drives it with tick() until nothing is left (no timeouts in such programs)
+        settled = w.settle(max_ticks=1500)
+        w.run_raised = None
+    else:
+        settled = w.run(max_iters=1500)
     if w.run_raised is not None:
         return [('LOOP_RAISED', {'error': repr(w.run_raised)})], {'marks': set(), 'counts': {}}, w
     if not settled:
@@ -100,6 +151,15 @@ def evaluate(case, w):
         elif e[0] == 'RX':
             susp.setdefault(e[1], []).append((i, e[2], e[5]))
     raised = {e[1] for e in w.log if e[0] == 'PX'}
+    if case.get('drive') == 'tick':
+        marks.add('driven_by_tick_from_the_calling_thread')
+    pre = case.get('earlier_run')
+    if pre:
+        marks.add('manager_had_an_earlier_run')
+        if pre.get('thread'):
+            marks.add('earlier_run_in_another_thread')
+        if pre.get('code') is not None:
+            marks.add('earlier_run_ended_with_exit_code')
     roots_complete = [u for u, info in w.events.items() if info['flags'].get('complete') and info['parent'] is None]
     if len(roots_complete) >= 2:
         marks.add('several_roots_in_flight')
@@ -208,6 +268,14 @@ def corpus():
     # generator raising in the closure
     cs.append({'name': 'gen-raise', 'handlers': [HD(1, 'a', [['fire', {'name': 'b'}]]), HD(2, 'b', [['yield', None], ['raise']], gen=True),
                                                  HD(3, 'b', [['fire', {'name': 'c'}]]), HD(4, 'c', [])], 'fires': [{'name': 'a', 'flags': C}]})
+    # the same programs on a manager with a past (an earlier run() in another thread / in this one, ended by stop() or an exit code),
+    # run() again or driven by tick() from the calling thread
+    for base in list(cs):
+        for pre in ({'thread': True, 'code': 3}, {'thread': True, 'code': None}, {'thread': False, 'code': 3}, {'thread': False, 'code': None}):
+            for drive in ('tick', 'run'):
+                cs.append(dict(base, name='%s-after-%s-run-%s-%s' % (base['name'], 'thread' if pre['thread'] else 'own', pre['code'], drive),
+                               earlier_run=pre, drive=drive))
+        cs.append(dict(base, name=base['name'] + '-tick', drive='tick'))
     # generator handlers suspended in call()/wait() inside the closure; the callee outlasts the timeout
     slow = HD(8, 'slow', [['yield', None]] * 6 + [['fire', {'name': 'late'}]], gen=True)
     tail = [HD(9, 'quick', [['fire', {'name': 'd'}]]), HD(10, 'd', []), HD(11, 'late', [['fire', {'name': 'd'}]]), HD(12, 'after', [['fire', {'name': 'd'}]])]
@@ -264,6 +332,16 @@ def gen_suspending_case(rng):
 def gen_case(rng):
     if rng.random() < 0.25:
         return gen_suspending_case(rng)
+    case = gen_plain_case(rng)
+    r = rng.random()
+    if r < 0.25:
+        case['drive'] = 'tick'
+    if r < 0.15 or rng.random() < 0.08:
+        case['earlier_run'] = {'thread': rng.random() < 0.6, 'code': rng.choice([None, 0, 3, 'bye'])}
+    return case
+
+
+def gen_plain_case(rng):
     nlev = rng.randint(2, 5)
     names = {lv: ['e%d_%d' % (lv, i) for i in range(rng.randint(1, 2))] for lv in range(nlev)}
     handlers = []
